@@ -213,3 +213,25 @@ package webrtc
 //@ ensures result.BundlePolicy == pc.configuration.BundlePolicy && result.RTCPMuxPolicy == pc.configuration.RTCPMuxPolicy && result.PeerIdentity == pc.configuration.PeerIdentity
 //@ ensures result.ICECandidatePoolSize == pc.configuration.ICECandidatePoolSize && result.ICETransportPolicy == pc.configuration.ICETransportPolicy && sameptr(result.Certificates, pc.configuration.Certificates) && sameptr(result.ICEServers, pc.configuration.ICEServers)
 //@ modifies nothing
+
+// ---------------------------------------------------------------- C11
+// sdpOrigin is written only through updateSDPOrigin, whose two call sites hold pc.mu.
+//@ field PeerConnection.sdpOrigin props C11 writers (*PeerConnection).CreateOffer, (*PeerConnection).CreateAnswer
+
+// Sequential contract (calls are serialised by pc.mu): the first call adopts the
+// description's session id and version; every later call stamps the saved id and a
+// version exactly one greater than the last one (strictly increasing below 2^64-1).
+//@ func updateSDPOrigin
+//@ locked mu
+//@ props C11
+//@ requires origin != nil && descr != nil && !sameobj(origin, descr)
+//@ requires descr.Origin.SessionVersion != 0 && descr.Origin.SessionID != 0
+//@ requires origin.SessionVersion != 0 ==> origin.SessionID != 0
+//@ observe old(origin.SessionVersion)
+//@ ensures old(origin.SessionVersion) == 0 ==> origin.SessionVersion == old(descr.Origin.SessionVersion) && origin.SessionID == old(descr.Origin.SessionID) && descr.Origin.SessionVersion == old(descr.Origin.SessionVersion) && descr.Origin.SessionID == old(descr.Origin.SessionID)
+//@ ensures old(origin.SessionVersion) != 0 ==> descr.Origin.SessionID == old(origin.SessionID) && origin.SessionID == old(origin.SessionID)
+//@ ensures old(origin.SessionVersion) != 0 ==> descr.Origin.SessionVersion == old(origin.SessionVersion) + 1 && origin.SessionVersion == old(origin.SessionVersion) + 1
+//@ ensures old(origin.SessionVersion) != 0 && old(origin.SessionVersion) != 18446744073709551615 ==> descr.Origin.SessionVersion > old(origin.SessionVersion)
+//@ ensures origin.SessionVersion != 0 ==> origin.SessionID != 0
+//@ modifies origin.SessionVersion, origin.SessionID, descr.Origin.SessionVersion, descr.Origin.SessionID
+//@ loop 0 invariant origin.SessionVersion == old(origin.SessionVersion) && origin.SessionID == old(origin.SessionID) && descr.Origin.SessionVersion == old(descr.Origin.SessionVersion)
